@@ -840,6 +840,9 @@ class BatchCompletionCallBack(object):
 
         # Schedule the next batch of tasks.
         with self.parallel._lock:
+            if self.parallel._call_id != self.parallel_call_id:
+                # Late completion of a batch of a previous call.
+                return
             self.parallel.n_completed_tasks += self.batch_size
             self.parallel.print_progress()
             if self.parallel._original_iterator is not None:
@@ -1942,6 +1945,11 @@ class Parallel(Logger):
                     )
                 raise RuntimeError(msg)
             self._running = True
+            # Renew the ID that identifies the current call in the same locked
+            # step, before the abort flags are reset: callbacks of a previous
+            # call that complete late can then never be mistaken for
+            # callbacks of this one.
+            self._call_id = uuid4().hex
 
         # Batches that were sliced ahead of time by a previous call that was
         # aborted must not be dispatched by this one.
@@ -1989,13 +1997,11 @@ class Parallel(Logger):
             next(output)
             return output if self.return_generator else list(output)
 
-        # Let's create an ID that uniquely identifies the current call. If the
-        # call is interrupted early and that the same instance is immediately
-        # reused, this id will be used to prevent workers that were
-        # concurrently finalizing a task from the previous call to run the
-        # callback.
-        with self._lock:
-            self._call_id = uuid4().hex
+        # Note: the ID that uniquely identifies the current call was renewed in
+        # _reset_run_tracking. If the call is interrupted early and that the
+        # same instance is immediately reused, this id is used to prevent
+        # workers that were concurrently finalizing a task from the previous
+        # call to run the callback.
 
         # self._effective_n_jobs should be called in the Parallel.__call__
         # thread only -- store its value in an attribute for further queries.
